@@ -28,6 +28,7 @@ type Program struct {
 	Layouts   []LayoutClause
 	Files     []string // contract files read
 	TypesPkgs map[string]*types.Package
+	ImportAliases map[string]map[string]string // package path -> import alias -> imported path
 }
 
 const repoRoot = "/repo"
@@ -68,13 +69,26 @@ func LoadProgram(moduleDir string, patterns []string, specFiles []string) (*Prog
 	prog, ssaPkgs := ssautil.Packages(pkgs, ssa.GlobalDebug|ssa.BareInits)
 	prog.Build()
 	P := &Program{Fset: fset, Pkgs: pkgs, SSA: prog, SSAPkgs: map[string]*ssa.Package{}, Contracts: map[string]*FuncContract{},
-		SpecFuncs: map[string]*SpecFunc{}, Ghosts: map[string]GhostVar{}, TypesPkgs: map[string]*types.Package{}}
+		SpecFuncs: map[string]*SpecFunc{}, Ghosts: map[string]GhostVar{}, TypesPkgs: map[string]*types.Package{}, ImportAliases: map[string]map[string]string{}}
 	for i, p := range pkgs {
 		if ssaPkgs[i] == nil {
 			return nil, fmt.Errorf("no SSA for %s", p.PkgPath)
 		}
 		P.SSAPkgs[p.PkgPath] = ssaPkgs[i]
 		P.TypesPkgs[p.PkgPath] = p.Types
+		// import aliases used by the package's source files (specs may use the same names)
+		for _, f := range p.Syntax {
+			for _, is := range f.Imports {
+				if is.Name == nil || is.Name.Name == "_" || is.Name.Name == "." {
+					continue
+				}
+				path := strings.Trim(is.Path.Value, "\"")
+				if P.ImportAliases[p.PkgPath] == nil {
+					P.ImportAliases[p.PkgPath] = map[string]string{}
+				}
+				P.ImportAliases[p.PkgPath][is.Name.Name] = path
+			}
+		}
 		// contract file
 		dir := ""
 		if len(p.GoFiles) > 0 {
